@@ -244,7 +244,23 @@ pub fn run_schedule_ex(programs: &[Vec<POp>], schedule: &[usize], spurious: u8, 
                             let res = match op {
                                 POp::Set => {
                                     let id = (t as u64 + 1) * 100 + idx as u64;
-                                    holder.set(Payload { id, check: !id });
+                                    if (t + idx) % 2 == 1 {
+                                        // the same call made from a destructor while the thread is unwinding
+                                        // (a scope guard that installs a default): it must behave alike
+                                        struct SetOnDrop<'a>(&'a SingletonHolder<Payload>, u64);
+                                        impl<'a> Drop for SetOnDrop<'a> {
+                                            fn drop(&mut self) {
+                                                self.0.set(Payload { id: self.1, check: !self.1 });
+                                            }
+                                        }
+                                        let h: &SingletonHolder<Payload> = &holder;
+                                        let _ = crate::util::catch(move || {
+                                            let _g = SetOnDrop(h, id);
+                                            panic!("{} (set is called while unwinding)", crate::util::HARNESS_PANIC);
+                                        });
+                                    } else {
+                                        holder.set(Payload { id, check: !id });
+                                    }
                                     Res::Unit
                                 }
                                 POp::Get => describe(&holder.get()),
